@@ -73,6 +73,15 @@ pub fn check_state(cx: &mut CaseCx, g: &GGM, path: &[u8], baseline: &[Option<[u8
         return;
       }
     }
+    // a REFUSED evaluation must not hand out the value through the caller's buffer
+    for &x in path.iter().rev().take(3) {
+      let mut out = [0u8; 32];
+      cx.eval();
+      if guard(|| g.eval(&[x], &mut out).is_err()) == Ok(true) && Some(out) == baseline[x as usize] {
+        cx.viol("C10/refused-evaluation-leaks-value", format!("evaluating the punctured input {} is refused, but the caller's output buffer holds its original value afterwards", x), json!({"punctured_in_order": path, "input": x}));
+        return;
+      }
+    }
     let before = sorted_nodes(g);
     let mut probe = |cx: &mut CaseCx, what: &str, f: &dyn Fn(&mut GGM) -> bool| {
       let mut c = g.clone();
@@ -603,6 +612,43 @@ fn run_cover_shapes(cx: &mut CaseCx, case: &Value) {
   }
 }
 
+
+/// MANY operations on ONE key object: 700 evaluations (live and punctured inputs alternating, every 7th into a
+/// dirty buffer) between punctures; counters that wrap, first-call / later-call and even / odd differences
+fn run_many_operations(cx: &mut CaseCx, _case: &Value) {
+  let (mut g, baseline) = setup_ggm(cx, 1);
+  if !check_baseline(cx, &baseline) {
+    return;
+  }
+  let mut path: Vec<u8> = vec![];
+  let mut n = 0u64;
+  for round in 0..6u8 {
+    for i in 0..700u32 {
+      let x = (i.wrapping_mul(37) % 256) as u8;
+      let mut out = if i % 7 == 0 { [0x5au8; 32] } else { [0u8; 32] };
+      let ok = guard(|| g.eval(&[x], &mut out).is_ok());
+      n += 1;
+      cx.eval();
+      let should = !path.contains(&x);
+      if ok != Ok(should) || (should && Some(out) != baseline[x as usize]) {
+        cx.viol("C10/many-operations/value-changed", format!("operation number {} on one key object (evaluation of input {}, {} punctures so far): {}", n, x, path.len(), if ok != Ok(should) { "refused / answered against the model" } else { "another value than the first evaluation gave" }), json!({"operation_number": n, "input": x, "punctured_in_order": path}));
+        return;
+      }
+    }
+    let x = [200u8, 9, 130, 255, 0, 77][round as usize];
+    if g.puncture(&[x]).is_ok() {
+      path.push(x);
+    }
+    n += 1;
+    check_state(cx, &g, &path, &baseline, false);
+    cx.count("states", 1);
+    cx.count("transitions", 701);
+  }
+  cx.count("operations_on_one_object", n);
+  cx.nontrivial(1);
+  cx.outcome("many operations");
+}
+
 fn sequences() -> Vec<(&'static str, Vec<u8>)> {
   let asc: Vec<u8> = (0..=255u8).collect();
   let desc: Vec<u8> = (0..=255u8).rev().collect();
@@ -721,6 +767,13 @@ pub fn spec() -> PropSpec {
         gen: |_| (0..32u64).map(|i| json!({"part": i, "parts": 32})).collect(),
         run: run_cover_shapes,
         min_counts: &[("states", 1500)],
+      },
+      Check {
+        name: "many-operations",
+        rule: "one key object through 4200 evaluations (inputs in stride-37 order, live and punctured alternating, every 7th into a dirty buffer) with a puncture after every 700: every answer per the model and equal to the first evaluation's value; full invariant after each puncture (counters that wrap, first / later call and even / odd call differences)",
+        gen: |_| vec![json!({})],
+        run: run_many_operations,
+        min_counts: &[("operations_on_one_object", 4000)],
       },
       Check {
         name: "complete-sequences",
